@@ -23,6 +23,7 @@ func isCallTo(in ssa.Instruction, name string) (*ssa.Call, bool) {
 }
 
 func checkC09(p *Program, r *Reporter) {
+	unitsRuleByName(p, r, "writeChunkedSegment")
 	r.Explanation = "Static analysis of structural necessary conditions of C09: (a) in the chunk pacing loop every call of the chunk writer is either control-dependent on a comparison 'chunk end < now' whose left side depends on the accumulated chunk durations, the segment's media time and the availability start time and whose right side depends on the request time, or follows, in its block, a sleep whose duration depends on all of these; " +
 		"(b) the chunk writer flushes on every successful return (the flush is conditional only on the writer implementing http.Flusher); (c) the duration recorded for every chunk closed inside the sample loop depends on the sample durations; the chunk duration handed to the splitter and used as divisor is proven positive (E3-A); " +
 		"(d) chunk writing happens only after the segment generator (which applies the availability test shared with whole-segment delivery) returned without error; (e) the first chunk is created with the segment's styp, chunks created in the loop without. " +
